@@ -239,3 +239,43 @@ pub enum Tier {
     Quick,
     Thorough,
 }
+
+/// all parts of a zip package as (name, bytes)
+pub fn unzip_all(buf: &[u8]) -> Result<Vec<(String, Vec<u8>)>, String> {
+    use std::io::Read;
+    let mut zip = zip::ZipArchive::new(std::io::Cursor::new(buf)).map_err(|e| e.to_string())?;
+    let mut out = vec![];
+    for i in 0..zip.len() {
+        let mut f = zip.by_index(i).map_err(|e| e.to_string())?;
+        let mut b = vec![];
+        f.read_to_end(&mut b).map_err(|e| e.to_string())?;
+        out.push((f.name().to_string(), b));
+    }
+    Ok(out)
+}
+
+/// text between the first `open` and the following `close`, repeatedly
+pub fn scan_between<'a>(s: &'a str, open: &str, close: &str) -> Vec<&'a str> {
+    let mut out = vec![];
+    let mut rest = s;
+    while let Some(i) = rest.find(open) {
+        rest = &rest[i + open.len()..];
+        match rest.find(close) {
+            Some(j) => {
+                out.push(&rest[..j]);
+                rest = &rest[j + close.len()..];
+            }
+            None => break,
+        }
+    }
+    out
+}
+
+/// value of attribute `name` in the text of a start tag
+pub fn attr_of<'a>(tag: &'a str, name: &str) -> Option<&'a str> {
+    let pat = format!(" {}=\"", name);
+    let i = tag.find(&pat)?;
+    let r = &tag[i + pat.len()..];
+    let j = r.find('"')?;
+    Some(&r[..j])
+}
